@@ -2,7 +2,7 @@
     the cassette's recording keys, close of a transient cassette is exact, and the
     discoverable-implies-fetchable invariant holds after every single bucket mutation. *)
 From Playback Require Import Base.Str Base.StrFacts Values.PyVal Values.SortFacts Values.Codec Values.CodecFacts
-  Cassette.Bucket Cassette.BucketFacts Cassette.S3Store.
+  Values.JsonWf Values.JsonFacts Cassette.Bucket Cassette.BucketFacts Cassette.S3Store.
 From Coq Require Import Lia QArith.
 Open Scope list_scope.
 Local Arguments reserved : simpl never.
@@ -399,6 +399,16 @@ Section Facts.
   Qed.
 End Facts.
 
+Lemma leaves_full_value r : rec_leaves_ok r = true -> leaves_ok (full_value r) = true.
+Proof.
+  unfold rec_leaves_ok, full_value. intros L. apply andb_true_iff in L. destruct L as [Ld Lm].
+  cbn [leaves_ok] in Ld |- *. apply dict_set_forallb; [exact Lm|exact Ld].
+Qed.
+Lemma rec_leaves_meta r : rec_leaves_ok r = true -> leaves_ok (VDict (r_meta r)) = true.
+Proof. unfold rec_leaves_ok. intros L. apply andb_true_iff in L. apply L. Qed.
+Lemma rec_leaves_data r : rec_leaves_ok r = true -> leaves_ok (VDict (r_data r)) = true.
+Proof. unfold rec_leaves_ok. intros L. apply andb_true_iff in L. apply L. Qed.
+
 (** ---- complete-before-visible ---- *)
 Section Complete.
   Variable qp : list N -> str.
@@ -407,7 +417,11 @@ Section Complete.
   Variable compress : bytes -> bytes.
   Variable decompress : bytes -> option bytes.
   Hypothesis qp_roundtrip : forall b, qp_dec (qp b) = b.
-  Hypothesis loads_dumps : forall j, loads (dumps j) = Some j.
+  (* the premise about json.loads is asked on the well-formed trees only: over all [json] terms no
+     function satisfies it (JsonFacts.loads_dumps_unsatisfiable); the concrete parser satisfies this one
+     (JsonFacts.loads_dumps) *)
+  Hypothesis loads_dumps : forall j, jwf j = true -> loads (dumps j) = Some j.
+  Hypothesis qp_ascii : forall b, is_bytes b = true -> str_ok (qp b) = true.
   Hypothesis decompress_compress : forall b, decompress (compress b) = Some b.
 
   Notation step := (step qp qp_dec loads compress decompress).
@@ -421,18 +435,19 @@ Section Complete.
   Notation enc := (enc qp).
   Notation dec := (dec qp_dec loads).
 
-  Lemma dec_enc v : wf v = true -> exists t, enc v = Some t /\ dec t = Some (canon v).
+  Lemma dec_enc v : wf v = true -> leaves_ok v = true -> exists t, enc v = Some t /\ dec t = Some (canon v).
   Proof.
-    intros W. destruct (restore_flatten qp qp_dec qp_roundtrip v W) as [j [F R]].
-    exists (dumps j). unfold S3Store.enc, encode_with, S3Store.dec. rewrite F. cbn. rewrite loads_dumps.
+    intros W L. destruct (restore_flatten qp qp_dec qp_roundtrip v W) as [j [F R]].
+    exists (dumps j). unfold S3Store.enc, encode_with, S3Store.dec. rewrite F. cbn.
+    rewrite loads_dumps by (exact (flatten_jwf qp qp_ascii v W L j F)).
     split; [reflexivity|exact R].
   Qed.
 
   Lemma full_body_ok r :
-    rec_wf r = true ->
+    rec_wf r = true -> rec_leaves_ok r = true ->
     exists t, full_body qp compress r = Some (compress t) /\ dec t = Some (canon (full_value r)).
   Proof.
-    intros W. destruct (dec_enc _ (wf_full_value r W)) as [t [E D]].
+    intros W L. destruct (dec_enc _ (wf_full_value r W) (leaves_full_value r L)) as [t [E D]].
     exists t. unfold full_body. rewrite E. split; [reflexivity|exact D].
   Qed.
 
@@ -442,8 +457,9 @@ Section Complete.
   Proof. unfold rec_wf. intros W. apply andb_true_iff in W. destruct W as [W _]. apply andb_true_iff in W. apply W. Qed.
 
   Lemma meta_body_ok r :
-    rec_wf r = true -> exists t, meta_body qp r = Some t /\ dec t = Some (canon (VDict (r_meta r))).
-  Proof. intros W. apply dec_enc. apply rec_wf_meta; exact W. Qed.
+    rec_wf r = true -> rec_leaves_ok r = true ->
+    exists t, meta_body qp r = Some t /\ dec t = Some (canon (VDict (r_meta r))).
+  Proof. intros W L. apply dec_enc; [apply rec_wf_meta; exact W|apply rec_leaves_meta; exact L]. Qed.
 
   Lemma dc_put_full c id t d b :
     dc c b -> dec t = Some (VDict d) -> dc c (b_put (full_key (np c) id) (compress t) b).
@@ -489,13 +505,13 @@ Section Complete.
 
   (** the heart: whatever prefix of the save's mutations has happened, the invariant holds *)
   Lemma plan_prefix_dc c c' r s ps st :
-    save_plan c' r s = Ans ps -> rec_wf r = true -> (np c' = np c \/ key_disjoint c c' = true) ->
+    save_plan c' r s = Ans ps -> rec_wf r = true -> rec_leaves_ok r = true -> (np c' = np c \/ key_disjoint c c' = true) ->
     dc c (objs st) -> forall n, dc c (objs (apply_puts (firstn n ps) st)).
   Proof.
-    intros P W [S|I] D n.
+    intros P W L [S|I] D n.
     - (* same key space *)
-      destruct (full_body_ok r W) as [t [FB DT]]. destruct (canon_full_value_dict r) as [d Cd]. rewrite Cd in DT.
-      destruct (meta_body_ok r W) as [mt [MB DM]].
+      destruct (full_body_ok r W L) as [t [FB DT]]. destruct (canon_full_value_dict r) as [d Cd]. rewrite Cd in DT.
+      destruct (meta_body_ok r W L) as [mt [MB DM]].
       apply save_plan_shape in P. rewrite S in P.
       destruct P as [->|[fb [F [[-> MN]|[mb [M ->]]]]]].
       + destruct n; exact D.
@@ -525,7 +541,8 @@ Section Complete.
       prefix; no clean-up (close of a writable transient cassette) of [c]'s own key space *)
   Definition benign (c : cfg) (ck : cfg * call) : Prop :=
     match snd ck with
-    | CSave r _ | CSaveCrash r _ _ => rec_wf r = true /\ (np (fst ck) = np c \/ key_disjoint c (fst ck) = true)
+    | CSave r _ | CSaveCrash r _ _ =>
+        rec_wf r = true /\ rec_leaves_ok r = true /\ (np (fst ck) = np c \/ key_disjoint c (fst ck) = true)
     | CClose | CExit => c_read_only (fst ck) = true \/ c_transient (fst ck) = false \/ key_disjoint c (fst ck) = true
     | _ => True
     end.
@@ -548,13 +565,13 @@ Section Complete.
     intros B D. unfold benign in B. cbn [fst snd] in B.
     destruct k; cbn [S3Store.step S3Store.call_states fst];
       try (split; [exact D|constructor; [exact D|constructor]]).
-    - destruct B as [W S]. unfold s3_save. destruct (save_plan c' r s) as [ps|e] eqn:P; cbn [fst].
+    - destruct B as [W [L S]]. unfold s3_save. destruct (save_plan c' r s) as [ps|e] eqn:P; cbn [fst].
       + split.
         * rewrite <- (firstn_all ps). eapply plan_prefix_dc; eassumption.
         * apply Forall_forall. intros x I. apply put_states_In in I. destruct I as [n ->].
           eapply plan_prefix_dc; eassumption.
       + split; [exact D|constructor].
-    - destruct B as [W S]. unfold s3_save_crash. destruct (save_plan c' r s) as [ps|e] eqn:P; cbn [fst].
+    - destruct B as [W [L S]]. unfold s3_save_crash. destruct (save_plan c' r s) as [ps|e] eqn:P; cbn [fst].
       + split.
         * destruct (n <? length ps)%nat; cbn [fst].
           -- eapply plan_prefix_dc; eassumption.
